@@ -25,6 +25,7 @@ from pyoda_time import CalendarSystem, LocalDate, LocalDateTime, LocalTime, Offs
 from vf.core.evidence import Acc, exc_origin
 from vf.core.par import pmap
 from vf.models import intarith as M
+from vf.models.valbind import cal_range, date_at, day_of, private_ok
 
 LEVEL = "model_checking"
 NSD = M.NS_DAY
@@ -58,57 +59,8 @@ def guarded(acc, prefix, case, fn, *a, **kw):
         return None
 
 
-_PRIVATE = {"ok": None}
-
-
-def _private_ok():
-    """the private day-number paths are used only if they agree with the public ones on a probe set"""
-    if _PRIVATE["ok"] is None:
-        ok = True
-        try:
-            for cal in (CalendarSystem.iso, CalendarSystem.julian, CalendarSystem.hebrew_civil):
-                for n in (-1, 0, 1, 11016, 40000):
-                    pub = ISO_EPOCH.plus_days(n).with_calendar(cal)
-                    prv = LocalDate._ctor(days_since_epoch=n, calendar=cal)
-                    if pub != prv or prv._days_since_epoch != n or Period.days_between(ISO_EPOCH, pub.with_calendar(CalendarSystem.iso)) != n:
-                        ok = False
-        except Exception:  # noqa: BLE001
-            ok = False
-        _PRIVATE["ok"] = ok
-    return _PRIVATE["ok"]
-
-
-def day_of(ld) -> int:
-    if _private_ok():
-        return ld._days_since_epoch
-    return Period.days_between(ISO_EPOCH, ld.with_calendar(CalendarSystem.iso))
-
-
-def date_at(n: int, cal):
-    if _private_ok():
-        return LocalDate._ctor(days_since_epoch=n, calendar=cal)
-    return ISO_EPOCH.plus_days(n).with_calendar(cal)
-
-
 def mk_time(t):
     return LocalTime.from_nanoseconds_since_midnight(t)
-
-
-@functools.cache
-def cal_range(cal_id):
-    """(lo, hi, consistent): public first day of min_year / last day of max_year as day numbers; consistent is False when
-    the calendar's private day range disagrees with them (then the raise-at-the-end law is not demanded: C01's subject)"""
-    cal = CalendarSystem.for_id(cal_id)
-    lo = day_of(LocalDate(cal.min_year, 1, 1, cal))
-    my = cal.max_year
-    mm = cal.get_months_in_year(my)
-    hi = day_of(LocalDate(my, mm, cal.get_days_in_month(my, mm), cal))
-    consistent = True
-    try:
-        consistent = (cal._min_days, cal._max_days) == (lo, hi)
-    except AttributeError:
-        pass
-    return lo, hi, consistent
 
 
 def cal_dates(cal_id, thorough):
@@ -237,10 +189,10 @@ def _py_time_accessor(t, name, e):
 
 @worker
 def w_time_sweep(job):
-    lo, hi = job
+    lo, hi, deltas = job
     acc = Acc()
     for s in range(lo, hi):
-        for d in (-1, 0, 1):
+        for d in deltas:
             t = s * M.NS_S + d
             if 0 <= t < NSD:
                 guarded(acc, "C10/time/value", {"kind": "time-value", "t": t}, check_time_value, t, (OT_OFFSETS[(s + d) % len(OT_OFFSETS)],))
@@ -248,11 +200,31 @@ def w_time_sweep(job):
     return acc, []
 
 
+def check_adjusters(acc, t):
+    """TimeAdjusters.truncate_to_* and with_time_adjuster: floor to the unit"""
+    from pyoda_time import TimeAdjusters
+    lt = mk_time(t)
+    case = {"kind": "time-adjuster", "t": t}
+    for name, u in (("truncate_to_second", M.NS_S), ("truncate_to_minute", M.NS_MIN), ("truncate_to_hour", M.NS_H)):
+        acc.count(transitions=2, evaluations=2)
+        adj = getattr(TimeAdjusters, name)
+        e = t - t % u
+        for how, r in (("call", adj(lt)), ("with_time_adjuster", lt.with_time_adjuster(adj))):
+            if not isinstance(r, LocalTime) or r.nanosecond_of_day != e:
+                acc.violation("C10/time/adjuster/%s/%s" % (name, tclass(t)), "%s (%s) of nanosecond-of-day %d gives %r, exact %d" % (
+                    name, how, t, getattr(r, "nanosecond_of_day", r), e), case)
+
+
 @worker
 def w_time_alpha(job):
+    times, swept = job
     acc = Acc()
-    for t in job:
+    for t in times:
+        before = (acc.states, acc.nontrivial)
         guarded(acc, "C10/time/value", {"kind": "time-value", "t": t}, check_time_value, t, OT_OFFSETS)
+        if t % M.NS_S in swept:
+            acc.states, acc.nontrivial = before      # this time is also visited by the second-boundary sweep: count it once
+        guarded(acc, "C10/time/adjuster", {"kind": "time-adjuster", "t": t}, check_adjusters, t)
     return acc, []
 
 
@@ -360,7 +332,7 @@ def check_time_plus(acc, t, unit, n, new=None):
                         ("subtract-static", lambda: LocalTime.subtract(lt, p), M.time_plus(t, -n, u))):
         acc.count(transitions=1, evaluations=1)
         r = fn()
-        ok = check_lt(acc, r, e, "C10/time/period-%s/%s/%s" % (name, unit, cls), "%d ns %s Period(%s=%d)" % (t, name, unit, n), dict(case, via=name))
+        ok = check_lt(acc, r, e, "C10/time/period-%s/%s/%s" % ("plus" if e is exp else "minus", unit, cls), "%d ns %s Period(%s=%d)" % (t, name, unit, n), dict(case, via=name))
         if ok and new is not None:
             new.add(e)
 
@@ -669,13 +641,15 @@ def _want(ctx, part):
 def run(ctx):
     thorough = ctx.tier == "thorough"
     complete = True
-    if not _private_ok():
+    if not private_ok():
         ctx.degrade("LocalDate._ctor(days_since_epoch=...)/_days_since_epoch unavailable or inconsistent: public plus_days/days_between used instead")
     T = time_alphabet()
     if _want(ctx, "time-accessors"):
-        for acc, _ in pmap(w_time_sweep, _rot([(a, min(86400, a + 1350)) for a in range(0, 86400, 1350)], ctx.seed)):
+        deltas = (-1, 0, 1) if not thorough else (-1000, -100, -1, 0, 1, 99, 100, 1000, 999_999, 1_000_000)
+        for acc, _ in pmap(w_time_sweep, _rot([(a, min(86400, a + 1350), deltas) for a in range(0, 86400, 1350)], ctx.seed)):
             ctx.merge_part("time-accessors", acc)
-        for acc, _ in pmap(w_time_alpha, _split(T, 8)):
+        swept = frozenset(d % M.NS_S for d in deltas)
+        for acc, _ in pmap(w_time_alpha, [(c, swept) for c in _split(T, 8)]):
             ctx.merge_part("time-accessors", acc)
     if _want(ctx, "time-factories"):
         for acc, _ in pmap(w_factories, [0]):
@@ -695,7 +669,8 @@ def run(ctx):
             if len(vals) > cap:
                 step = len(vals) / cap
                 total = len(vals)
-                vals = [vals[int(i * step)] for i in range(cap)]
+                off = (ctx.seed % 97) / 97.0          # the seed only shifts which representatives are taken
+                vals = [vals[min(total - 1, int((i + off) * step))] for i in range(cap)]
                 ctx.cap("time-plus level %d: %d new times, %d explored (even spread over the day)" % (level, total, cap))
                 complete = False
             ctx.note("time_plus_level_%d_values" % level, len(vals))
@@ -720,7 +695,14 @@ def run(ctx):
         jobs = []
         for cid in cal_ids:
             days = cal_dates(cid, thorough)
-            level = "thorough" if thorough else ("full" if cid in FULL_CALS else "basic")
+            if thorough:
+                # all calendars get the full list (FULL_CALS the extended one) on the quick date set plus the month ends of one year
+                level = "thorough" if cid in FULL_CALS else "full"
+                cal = CalendarSystem.for_id(cid)
+                y = (cal.min_year + cal.max_year) // 2
+                days = sorted(set(cal_dates(cid, False)) | {day_of(LocalDate(y, m, cal.get_days_in_month(y, m), cal)) for m in range(1, cal.get_months_in_year(y) + 1)})
+            else:
+                level = "full" if cid in FULL_CALS else "basic"
             for chunk in _split(days, (6 if level == "full" else 2) if not thorough else 12):
                 jobs.append((cid, chunk, times, level))
         for acc, _ in pmap(w_ldt_period, _rot(jobs, ctx.seed)):
@@ -753,6 +735,8 @@ def replay(rec):
         guarded(acc, "C10/time/value", case, check_time_value, case["t"], OT_OFFSETS if "o" not in case else (case["o"],))
     elif k == "factory":
         acc.merge(w_factories(0)[0])
+    elif k == "time-adjuster":
+        guarded(acc, "C10/time/adjuster", case, check_adjusters, case["t"])
     elif k == "time-plus":
         guarded(acc, "C10/time/plus_" + case["unit"], case, check_time_plus, case["t"], case["unit"], case["n"])
     elif k == "time-mixed" and "ua" in case:
